@@ -99,6 +99,9 @@ def parse(cmd, rc, out, err, wall, R, gen_name):
         U.status = 'inconclusive'
         U.reason = 'verus front-end error (construct outside the subset, or the spec no longer type-checks against the code): ' + \
                    '; '.join(d.get('message', '') for d in errs[:3])
+        for d in errs[:6]:
+            U.failed.append(dict(kind='inconclusive', message=d.get('message', ''), gen_line=0, origin=('?',), fn=None,
+                                 obligation=None, rendered=d.get('rendered', '')))
         return U
     if not errs:
         U.status = 'inconclusive'
